@@ -36,13 +36,13 @@ SEM = Family(
         ModelCfg("s-n2o2e1-i1m1f", sconsts(2, 2, 1, True, 1, 1), emit=True, check=False,
                  replay_kw=skw(True, 1, 1)),
         ModelCfg("s-n2o3e2-i1m2", sconsts(2, 3, 2, False, 1, 2), emit=True, check=False,
-                 replay_kw=skw(False, 1, 2), max_scenarios=4000),
+                 replay_kw=skw(False, 1, 2), max_scenarios=2500),
         ModelCfg("s-n3o2e1-ar", sconsts(3, 2, 1, False, 0, 0, ops='{"acq", "rel"}'), emit=True, check=False,
                  replay_kw=skw(False, 0, 0)),
         # clients survive the cancellation of their scope (move_on_after pattern) and carry on
         ModelCfg("s-n2o3e2-retry", sconsts(2, 3, 2, False, 1, 0, ops='{"acq", "rel"}', env='{"cancel"}', retry=True),
-                 emit=True, replay_kw={**skw(False, 1, 0), "retry": True}),
-        ModelCfg("s-n3o3e2-retry", sconsts(3, 3, 2, False, 1, 2, retry=True), simulate=1000, check=False,
+                 emit=True, replay_kw={**skw(False, 1, 0), "retry": True}, max_scenarios=1500),
+        ModelCfg("s-n3o3e2-retry", sconsts(3, 3, 2, False, 1, 2, retry=True), simulate=600, check=False,
                  replay_kw={**skw(False, 1, 2), "retry": True}),
         ModelCfg("s-n3o2e2-i1", sconsts(3, 2, 2, False, 1, 0), tiers=("quick",), simulate=1000,
                  replay_kw=skw(False, 1, 0)),
@@ -84,11 +84,11 @@ LIM = Family(
         ModelCfg("l-n2o2e1-t1", lconsts(2, 2, 1, 1, "{0, 2}"), emit=True, check=False,
                  replay_kw={"total": 1}),
         ModelCfg("l-n2o3e1-t1", lconsts(2, 3, 1, 1, "{0, 1}", ops='{"acq", "rel", "set", "nowait"}'),
-                 emit=True, check=False, replay_kw={"total": 1}, max_scenarios=4000),
+                 emit=True, check=False, replay_kw={"total": 1}, max_scenarios=2500),
         ModelCfg("l-n2o3e2-retry", lconsts(2, 3, 2, 1, "{0, 2}", ops='{"acq", "rel", "set"}', env='{"cancel"}',
                                            retry=True),
-                 emit=True, replay_kw={"total": 1, "retry": True}, max_scenarios=3000),
-        ModelCfg("l-n3o3e2-retry", lconsts(3, 3, 2, 1, "{0, 2}", retry=True), simulate=1000, check=False,
+                 emit=True, replay_kw={"total": 1, "retry": True}, max_scenarios=1500),
+        ModelCfg("l-n3o3e2-retry", lconsts(3, 3, 2, 1, "{0, 2}", retry=True), simulate=600, check=False,
                  replay_kw={"total": 1, "retry": True}),
         ModelCfg("l-n3o2e1-t2", lconsts(3, 2, 1, 2, "{0, 1, 3}", ops='{"acq", "acqf", "rel", "set"}'),
                  tiers=("quick",), simulate=1500, replay_kw={"total": 2}),
